@@ -106,6 +106,21 @@ def add_packed_family(rng, case, expect):
     return 1
 
 
+def canon_key(inst, memo):
+    """Structural identity of a node as the wiring intern table sees it: same definition, scalars and (recursively) same
+    inputs in the same graph instance are one node - exact duplicates collapse, everything else stays distinct."""
+    if inst.id in memo:
+        return memo[inst.id]
+    memo[inst.id] = ("cyc", inst.id)
+    if inst.op in ("fb", "const") or inst.uid is None:
+        k = ("id", inst.id)
+    else:
+        k = (inst.op, inst.uid, tuple(sorted((a, str(b)) for a, b in inst.kw.items())), inst.path,
+             tuple((canon_key(r.target, memo), r.passive) for r in inst.ins))
+    memo[inst.id] = k
+    return k
+
+
 def pick_alias(rng, alias, a):
     pas = a.startswith("~")
     n = a[1:] if pas else a
@@ -170,13 +185,15 @@ def generate(rng, tier, seed):
         # passes one port twice): then the two wirings are exact duplicates and sharing is permitted
         try:
             flat0 = M.flatten(base)
+            memo = {}
             for u, (kind, gname) in list(expect.items()):
                 if kind != "distinct2":
                     continue
                 groups = {}
                 for i in flat0.insts:
                     if i.uid == u:
-                        groups.setdefault(i.path, []).append((tuple((r.target.id, r.passive) for r in i.ins), tuple(sorted(i.kw.items()))))
+                        groups.setdefault(i.path, []).append((tuple((canon_key(r.target, memo), r.passive) for r in i.ins),
+                                                              tuple(sorted(i.kw.items()))))
                 if any(len(set(g)) < len(g) for g in groups.values()):
                     expect[u] = ("shared", gname)
         except M.FlattenError:
